@@ -28,11 +28,35 @@ EXPLANATION = ("field-footprint and callee-identity analysis over rustc MIR: whi
 FIELD_OF = {"set_creation_time": "created", "set_modification_time": "modified", "set_access_time": "accessed"}
 
 
+IDENTITY_CALLS = ("Clone::clone", "Into::into", "From::from", "Deref::deref", "Borrow::borrow", "ToOwned::to_owned")
+
+
+def _identity_shape(t, leaf):
+    """(is t exactly Some^k(leaf) up to clones/conversions, k)"""
+    k = 0
+    t = norm(t)
+    for _ in range(8):
+        if leaf(t):
+            return True, k
+        if t[0] == "agg" and t[2] == "Some" and len(t[3]) == 1:
+            k += 1
+            t = norm(t[3][0][1])
+            continue
+        if t[0] == "call" and t[1] in IDENTITY_CALLS and t[2]:
+            t = norm(t[2][0])
+            continue
+        if t[0] in ("okval",):
+            return False, k
+        break
+    return False, k
+
+
 def run(facts, rep, tier, ctx):
     D = Discharger(facts, load_records(os.path.join(ctx["V"], "rules", "panic_records.json")))
     ws = World(facts, False)
     mm = MemoryModel(facts, ws.memory, "FileSystem")
     n = 0
+    stored = {}
     for op, fld in FIELD_OF.items():
         b = mm.ops.get(op)
         if b is None:
@@ -52,11 +76,17 @@ def run(facts, rep, tier, ctx):
                 if st.kind == "assign" and not st.lhs.is_local() and f in st.lhs.fields():
                     val = norm(get_tracer(facts, cb).rvalue(st.rv, frozenset()))
             okv = val is not None and any(x[0] == "arg" and x[1] == 2 for x in walk(val)) and not any(x[0] == "call" and "now" in str(x[1]) for x in walk(val))
+            shape, somes = _identity_shape(val, lambda x: x[0] == "arg" and x[1] == 2)
+            stored[fld] = (shape, somes)
+            n += 1
+            rep.ob("R19.1", b.id, "%s stores the argument itself (at most wrapped in Some)" % op, shape,
+                   "Some^%d(time)" % somes if shape else "the stored value %s is computed from the argument (clamped / compared / "
+                   "replaced for some values): metadata cannot report exactly the value set" % fmt(val)[:60], line)
             okk = any(x[0] == "call" and x[1] == "HashMap::get_mut" and len(x[2]) == 2 and x[2][1][0] == "arg" and x[2][1][1] == 1 for x in walk(base))
             n += 2
             rep.ob("R19.1", b.id, "%s stores the time argument" % op, okv, fmt(val)[:50] if val else "?", line)
             rep.ob("R19.1", b.id, "%s re-times the entry at its own path" % op, okk, "", line)
-    rep.floor("setter obligations", n, 9)
+    rep.floor("setter obligations", n, 12)
     # metadata copies same-named fields
     b = mm.ops.get("metadata")
     if b is not None:
@@ -70,6 +100,14 @@ def run(facts, rep, tier, ctx):
                 ok = t is not None and any(x[0] == "field" and x[2] == fld for x in walk(t)) and \
                     not any(x[0] == "field" and x[2] in ("created", "modified", "accessed") and x[2] != fld for x in walk(t))
                 rep.ob("R19.1", b.id, "metadata.%s comes from the entry's %s" % (fld, fld), ok, fmt(t)[:50] if t else "?", b.span)
+                # exact round trip: the reported value is the stored field itself, wrapped in Some so that together with
+                # the setter exactly one Option layer is added — no filter / comparison / sentinel in between
+                shape, somes = _identity_shape(t, lambda x, fld=fld: x[0] == "field" and x[2] == fld) if t is not None else (False, 0)
+                total = somes + (stored.get(fld, (True, 0))[1])
+                okr = shape and total == 1
+                rep.ob("R19.1", b.id, "metadata.%s reports the stored value unfiltered" % fld, okr,
+                       "Some^%d(entry.%s) after Some^%d in the setter" % (somes, fld, total - somes) if okr else
+                       "metadata.%s is %s: some stored values (a sentinel) are reported differently from what was set" % (fld, fmt(t)[:70] if t else "?"), b.span)
     # R19.2
     h = Handles(facts, False, D)
     from ..report import Report
@@ -89,4 +127,26 @@ def run(facts, rep, tier, ctx):
     c09.table_u(facts, rep, ws, "R19.4o", only=("set_creation_time", "set_modification_time", "set_access_time"))
     emb = [b for b in facts.bodies if b.impl and b.impl["self_ty"].startswith("impls::embedded::EmbeddedFS") and b.name in FIELD_OF]
     rep.ob("R19.4", "impls::embedded::EmbeddedFS", "setters not overridden (NotSupported default)", not emb, "", "")
+    # the async port: AsyncPhysicalFS makes the same single-field filetime calls, the adapters pass through; an in-memory
+    # backend that does not override the setters answers NotSupported by the trait default (nothing to round-trip)
+    wa = World(facts, True)
+    rep.ob("R19.A", "async_vfs", "async world present", wa.present(), "", "")
+    if wa.present():
+        from .c10 import _Prefixed
+        A = _Prefixed(rep, "A")
+        k = physrules.table_o_shape(facts, A, "R19.3", wa)
+        k += c07.delegation(facts, A, wa, "R19.4a", D)
+        k += c04.overlay_read_delegation(facts, A, wa, "R19.4o")
+        k += c09.table_u(facts, A, wa, "R19.4o", only=("set_creation_time", "set_modification_time", "set_access_time"))
+        mma = MemoryModel(facts, wa.memory, "AsyncFileSystem")
+        over = sorted(op for op in FIELD_OF if op in mma.ops)
+        if over:
+            for op in over:
+                fws = mma.field_writes(mma.ops[op])
+                names = sorted({f for _, _, f, _, _ in fws})
+                A.ob("R19.1", mma.ops[op].id, "%s writes exactly the field `%s`" % (op, FIELD_OF[op]), names == [FIELD_OF[op]],
+                     "fields written: %s" % names, mma.ops[op].span)
+        else:
+            A.ob("R19.1", wa.memory, "setters not overridden (NotSupported default, nothing stored)", True, "", "")
+        rep.floor("async-world timestamp obligations", k, 50)
     rep.assume("the OS stores the value passed to utimensat exactly (precision/range are runtime quantities)")
